@@ -234,7 +234,8 @@ pub fn eval(case: &Case) -> (Vec<Violation>, bool, Option<String>) {
     let (listeners, dups, reexported) = match observe(&run.files) {
         Ok(x) => x,
         Err(e) if e.starts_with("SYNTAX") => return (vec![], true, Some(e)),
-        Err(e) => return (vec![mk(case, "listener-unreadable", e)], true, None),
+        // the observer does not understand the module's shape: that is the observer's limit, not a verdict
+        Err(e) => return (vec![], true, Some(format!("ORACLE events.ts: {}", e))),
     };
     let exp = case.expected();
     let mut vs = vec![];
@@ -247,7 +248,7 @@ pub fn eval(case: &Case) -> (Vec<Violation>, bool, Option<String>) {
     for l in &listeners {
         match &l.event {
             Some(e) => by_event.entry(e.clone()).or_default().push(l),
-            None => vs.push(mk(case, "listener-unreadable", format!("{} does not subscribe to a literal event name", l.function))),
+            None => return (vec![], true, Some(format!("ORACLE {} does not subscribe to a literal event name", l.function))),
         }
     }
     for (name, want) in &exp {
@@ -270,7 +271,7 @@ pub fn eval(case: &Case) -> (Vec<Violation>, bool, Option<String>) {
                             vs.push(mk(case, "payload-type", format!("event {:?} is emitted with different payload types but the listener is typed {}", name, g.show())));
                         }
                     }
-                    (_, None) => vs.push(mk(case, "listener-unreadable", format!("{}: handler parameter has no readable payload type", l.function))),
+                    (_, None) => return (vec![], true, Some(format!("ORACLE {}: handler parameter has no readable payload type", l.function))),
                 }
                 if l.listen_type_arg.is_some() && l.listen_type_arg != l.payload {
                     vs.push(mk(case, "payload-type", format!("{}: listen<..> type argument differs from the handler's payload type", l.function)));
@@ -535,6 +536,9 @@ pub fn run(tier: Tier) -> CheckResult {
             None => exhaustive = false,
             Some((v, acc, unp)) => {
                 evaluations += 1;
+                if let Some(u) = unp.as_ref().filter(|u| u.starts_with("ORACLE")) {
+                    res.machinery_errors.push(format!("observer does not cover the generated events module: {}", u));
+                }
                 if unp.is_some() {
                     not_parsable += 1;
                 } else if acc {
